@@ -51,6 +51,7 @@ type FuncContract struct {
 	Params   []string // for extern/type contracts: parameter names (binding by position)
 	Results  []string
 	Consumes []string
+	GhostDefs []Clause
 }
 
 type Hint struct {
@@ -299,6 +300,12 @@ func (cs *Contracts) LoadContractFile(path, pkg string) error {
 				return err
 			}
 			cur.Ensures = append(cur.Ensures, c)
+		case "ghostdef":
+			c, err := mkClause(rest)
+			if err != nil {
+				return err
+			}
+			cur.GhostDefs = append(cur.GhostDefs, c)
 		case "modifies":
 			cur.HasMod = true
 			if rest != "" && rest != "nothing" {
